@@ -30,6 +30,7 @@ type c15Case struct {
 	Pre      []int    `json:"pre,omitempty"`      // other records (c15Others) placed before the record in the stream ...
 	Post     []int    `json:"post,omitempty"`     // ... and after it: the stream's output must be the outputs of its records one by one
 	Sin      int      `json:"sin,omitempty"`      // standard input: 0 a pipe, 1 a regular file, 2 a regular file positioned behind a line the caller consumed
+	Long     bool     `json:"long,omitempty"`     // options in their long spelling (--erase, --embed, --invert-region, --format fasta; the flag parser of gts does not take --name=value)
 	InPlace  bool     `json:"in_place,omitempty"` // insert, infix: -o names the guest / host file itself (an update in place)
 	Twice    bool     `json:"twice,omitempty"`    // the input stream holds the record twice: both copies must be treated alike
 }
@@ -206,14 +207,20 @@ func parseOutput(out []byte) ([]outRec, string) {
 func (c c15Case) argv(extra ...string) []string {
 	args := []string{c.Cmd, "--no-cache"}
 	if c.Fasta {
-		args = append(args, "-F", "fasta")
+		if c.Long {
+			args = append(args, "--format", "fasta")
+		} else {
+			args = append(args, "-F", "fasta")
+		}
 	}
 	if c.Flag {
 		switch c.Cmd {
-		case "delete", "insert", "infix":
-			args = append(args, "-e")
+		case "delete":
+			args = append(args, map[bool]string{false: "-e", true: "--erase"}[c.Long])
+		case "insert", "infix":
+			args = append(args, map[bool]string{false: "-e", true: "--embed"}[c.Long])
 		case "extract":
-			args = append(args, "-v")
+			args = append(args, map[bool]string{false: "-v", true: "--invert-region"}[c.Long])
 		}
 	}
 	args = append(args, extra...)
@@ -914,6 +921,7 @@ func c15Gen(t *rapid.T) c15Case {
 		c.InPlace = rapid.IntRange(0, 4).Draw(t, "inplace") == 0
 	}
 	c.Sin = rapid.SampledFrom([]int{0, 0, 0, 0, 1, 2}).Draw(t, "sin")
+	c.Long = rapid.IntRange(0, 2).Draw(t, "long") == 0
 	if rapid.IntRange(0, 3).Draw(t, "mixed") == 0 {
 		c.Pre = rapid.SliceOfN(rapid.IntRange(0, 4), 0, 2).Draw(t, "pre")
 		c.Post = rapid.SliceOfN(rapid.IntRange(0, 4), 0, 2).Draw(t, "post")
@@ -993,7 +1001,7 @@ func TestC15(t *testing.T) {
 					if flag && (cmd == "split" || cmd == "rotate") {
 						continue
 					}
-					if !e.try(c15Case{Cmd: cmd, L: 56, Circ: circ, Feats: feats, Locators: []string{loc}, Flag: flag, GuestLen: 3, Twice: circ != flag}) {
+					if !e.try(c15Case{Cmd: cmd, L: 56, Circ: circ, Feats: feats, Locators: []string{loc}, Flag: flag, GuestLen: 3, Twice: circ != flag, Long: circ}) {
 						return
 					}
 					if (cmd == "insert" || cmd == "infix") && !e.try(c15Case{Cmd: cmd, L: 56, Circ: circ, Feats: feats, Locators: []string{loc}, Flag: flag, GuestLen: 3, Guests: 2, Twice: circ == flag}) {
